@@ -105,12 +105,16 @@ def step_hygiene():
     return bad
 
 
-def step_axioms(module, theorems):
-    """returns {theorem: [axioms]} ; missing theorem -> None"""
+def step_axioms(module, theorems, extra_imports=()):
+    """returns {theorem: [axioms]} ; missing theorem -> None.
+    `extra_imports`: further modules holding registered theorems (a family's optional EXTRA_IMPORTS,
+    e.g. composition theorems proved on top of several property modules)"""
     os.makedirs(BUILD, exist_ok=True)
     aud = os.path.join(BUILD, f"audit_{module.split('.')[-1]}.lean")
     with open(aud, "w") as f:
         f.write(f"import {module}\n")
+        for m in extra_imports:
+            f.write(f"import {m}\n")
         for t in theorems:
             f.write(f"#print axioms {t}\n")
     r = sh(["lake", "env", "lean", aud], cwd=LEAN)
@@ -275,19 +279,20 @@ def main():
     # 2. proofs
     theorems = list(getattr(fam, "THEOREMS", []))
     module = fam.LEAN_MODULE
+    extra_mods = list(getattr(fam, "EXTRA_IMPORTS", []))
     discharged = 0; ax_report = {}
     drv_ok, derrs, dout = step_lake(["driver"])
     if not drv_ok:
         problems.append(("model-build", "lake build driver failed: " + " | ".join(derrs[:4])))
     if a.replay is None and not a.no_proof:
-        ok, errs, out = step_lake([module])
+        ok, errs, out = step_lake([module] + extra_mods)
         if not ok:
-            problems.append(("proof", f"lake build {module} failed: " + " | ".join(errs[:6])))
+            problems.append(("proof", f"lake build {' '.join([module] + extra_mods)} failed: " + " | ".join(errs[:6])))
         hyg = step_hygiene()
         for h in hyg:
             problems.append(("hygiene", h))
         if ok:
-            axs, raw = step_axioms(module, theorems)
+            axs, raw = step_axioms(module, theorems, extra_mods)
             bits_src = open(BV_AXIOMS_OK_IN).read() if os.path.exists(BV_AXIOMS_OK_IN) else ""
             for t in theorems:
                 if axs[t] is None:
@@ -302,10 +307,11 @@ def main():
                     discharged += 1
                 ax_report[t] = axs[t]
         if tier == "thorough" and ok:
-            r = sh(["lake", "env", "leanchecker", module], cwd=LEAN)
-            if r.returncode != 0:
-                problems.append(("leanchecker", r.stdout[-300:]))
-            log.append("leanchecker: " + ("ok" if r.returncode == 0 else "FAILED"))
+            for lm in [module] + extra_mods:
+                r = sh(["lake", "env", "leanchecker", lm], cwd=LEAN)
+                if r.returncode != 0:
+                    problems.append(("leanchecker", lm + ": " + r.stdout[-300:]))
+                log.append(f"leanchecker {lm}: " + ("ok" if r.returncode == 0 else "FAILED"))
     # 3. harness
     exe, herr = step_harness(fam.FAMILY)
     if exe is None:
@@ -458,8 +464,8 @@ def main():
         "property_id": pid, "tier": tier, "seed": seed, "level": "proof",
         "coverage": {
             "obligations": len(theorems), "discharged": discharged,
-            "checker_cmd": f"cd lean && lake build {module} && lake env lean build/audit (#print axioms)"
-                           + (" && lake env leanchecker " + module if tier == "thorough" else ""),
+            "checker_cmd": f"cd lean && lake build {' '.join([module] + extra_mods)} && lake env lean build/audit (#print axioms)"
+                           + (" && lake env leanchecker " + " ".join([module] + extra_mods) if tier == "thorough" else ""),
             "trusted_base": ["Lean 4.33.0 kernel", "axioms: propext, Classical.choice, Quot.sound"
                              + ("; bv_decide native axioms of Lemmas/Bits.lean: " + ", ".join(sorted({x for v in ax_report.values() for x in (v or []) if 'bv_decide' in x})) if any('bv_decide' in x for v in ax_report.values() for x in (v or [])) else ""),
                              "gen/translate.py + clang-14 AST + layout probe (regenerated this run)",
